@@ -77,7 +77,7 @@ func HarnessC18CodeTextReject() {
 //verif:harness property=C18
 func HarnessC18PercentRoundTrip() {
 	pool := newBufferPool()
-	m := nondetString("m", bound("len", 4, 6))
+	m := nondetString("m", bound("len", 3, 5))
 	enc := grpcPercentEncode(pool, m)
 	for i := 0; i < len(enc); i++ {
 		check(enc[i] >= 0x20 && enc[i] <= 0x7e, "percent-encoded output is printable ASCII")
